@@ -870,7 +870,16 @@ def expected_reexports(p: Dict[str, Any], multi: bool = False) -> List[Dict[str,
                 continue
             tq = resolve_import_target(p, ri, op["lvl"], op["m"])
             oi = idx.get(tq or "")
-            if not oi or oi == ri or p["mods"][oi - 1]["broken"]:
+            if not oi or p["mods"][oi - 1]["broken"]:
+                continue
+            if oi == ri:
+                # `from . import sub as name` in the __init__ of the package itself: a sub-module (or sub-package, with everything
+                # below it) re-exported under another name
+                if op["k"] == "from" and R["pkg"] and idx.get(f"{tq}.{op['orig']}") and op["as"] in R["all"] and op["as"] != op["orig"] \
+                        and op["as"] not in top_level_defs(p, ri):
+                    si = idx[f"{tq}.{op['orig']}"]
+                    found.append({"site": [si, 0], "kind": "module", "old": f"{tq}.{op['orig']}", "new": f"{tq}.{op['as']}", "rex": ri, "origin": oi,
+                                  "members": [(n, pc2) for n, (k2, pc2) in top_level_defs(p, si).items()], "member_origin": si})
                 continue
             O = p["mods"][oi - 1]
             defs = top_level_defs(p, oi)
